@@ -47,9 +47,9 @@ THEOREMS = [
     'CpProofs.C17.C17_charset_406_only_if_none',
     'CpProofs.C17.C17_charset_forced',
     'CpProofs.C17.C17_charset_announced',
-    'CpProofs.C17.C17_charset_sound_partial',
-    'CpProofs.C17.C17_charset_sound_single',
-    'CpProofs.C17.C17_charset_sound_full_false',
+    'CpProofs.C17.C17_charset_sound',
+    'CpProofs.C17.perChunk_sound_partial',
+    'CpProofs.C17.unrepaired_charset_sound_full_false',
     'CpProofs.C17.C17_charset_stream_full_false',
     'CpProofs.C17.C17_charset_star_ignores_explicit',
     # q-values float() accepts; order-only; sorted is the stable sort (C17Order.lean)
@@ -90,6 +90,7 @@ THEOREMS = [
     'CpProofs.C17.C17_gzip_no_optional_fields',
     'CpProofs.C17.C17_gzip_roundtrip_full',
     'CpProofs.C17.header_table_live',
+    'CpProofs.C17.C17_charset_star_respects_explicit',
 ]
 LEVEL = 'proof'
 TECHNIQUE = ('Lean 4 proof over a hand model of encoding.compress / encoding.gzip / ResponseEncoder / header_elements '
@@ -769,12 +770,7 @@ def oracle_cs(case, obs):
                         'cs:undecodable'))
             return bad
         if back != text:
-            if codec_name(announced) in BOM_CODECS and nstr >= 2:
-                bad.append(('%d chunks encoded separately under %r: every chunk carries its own BOM, the body '
-                            'decodes to a different text' % (nstr, announced), 'F18c:bom_per_chunk'))
-            else:
-                bad.append(('body decodes under %r to a text different from the original' % announced,
-                            'cs:lossy'))
+            bad.append(('body decodes under %r to a text different from the original' % announced, 'cs:lossy'))
             return bad
         # preference (an empty text is representable in anything: nothing to prefer)
         if not text:
@@ -786,16 +782,6 @@ def oracle_cs(case, obs):
         elif strict and els:
             named = [q for n, q in els if n.lower() == low]
             star = [q for n, q in els if n == '*']
-            star_sig = None
-            if low == 'utf-8' and star and max(star) > 0 and named and max(named) < max(star):
-                # '*' made the tool try its default although the header lists utf-8 itself with a lower q
-                star_sig = 'F18e:star_overrides_explicit_default'
-                qstar = max(star)
-                if max(named) == 0 or any(n != '*' and n.lower() != low and max(named) < q <= qstar and listed_can(n)
-                                          for n, q in els):
-                    bad.append(('utf-8 chosen through "*" (q=%g) although the header gives utf-8 itself q=%g: %r'
-                                % (qstar / 1000.0, max(named) / 1000.0, case['ac']), star_sig))
-                named = [qstar]
             if named:
                 qc = max(named)
             elif star:
